@@ -165,6 +165,8 @@ func (h *H) literals() {
 		{nPollReq, "nat-outside-names", `{"Sid":"s","Version":"1.2","NAT":"bogus"}`},
 		{nPollResp, "missing-offer", `{"Status":"client match"}`},
 		{nPollResp, "nat-outside-names", `{"Status":"client match","Offer":"x","NAT":"bogus"}`},
+		{nPollResp, "nat-outside-names:no-match", `{"Status":"no match","NAT":"symmetric"}`},
+		{nPollResp, "nat-outside-names:other-status", `{"Status":"incorrect relay pattern","NAT":"symmetric"}`},
 		{nAnsReq, "version", `{"Version":"2.0","Sid":"s","Answer":"a"}`},
 		{nAnsReq, "missing-sid", `{"Version":"1.0","Answer":"a"}`},
 		{nAnsReq, "missing-answer", `{"Version":"1.0","Sid":"s"}`},
@@ -186,7 +188,7 @@ func (h *H) literals() {
 			o, ok = h.decPollReq("handwritten", rc, data)
 			err = o.err
 		case nPollResp:
-			if c.feat == "nat-outside-names" && !strictPollResponseNAT {
+			if strings.HasPrefix(c.feat, "nat-outside-names") && !strictPollResponseNAT {
 				continue
 			}
 			var o pollRespOut
@@ -284,6 +286,12 @@ func TestVerifC12(t *testing.T) {
 		if !mine(i) {
 			continue
 		}
+		// the first bases get every mutation of every list, the others every
+		// third one with a rotating offset
+		h.thin = 0
+		if i >= 12 {
+			h.thin = 1 + i%3
+		}
 		h.handPollReq(root.SplitN("hand-pollreq", i), fmt.Sprintf("hand/pollreq/%d", i))
 		h.handPollResp(root.SplitN("hand-pollresp", i), fmt.Sprintf("hand/pollresp/%d", i))
 		h.handAnsReq(root.SplitN("hand-ansreq", i), fmt.Sprintf("hand/ansreq/%d", i))
@@ -333,6 +341,16 @@ func TestVerifC12(t *testing.T) {
 		res.RequireObs(k, 1)
 	}
 	res.RequireObs("literal_witnesses", 15)
+	res.RequireObs("reject_law_cross_cases", int64(nHand*500))
+	res.RequireObs("reject_law_shapes", int64(nHand*80))
+	res.RequireObs("default_nat_unknown_applied:no-match-response", int64(nHand))
+	if strictPollResponseNAT {
+		for _, suffix := range []string{"", ":no-match", ":other-status", ":no-status"} {
+			// the last two are vacuous for the current decoder (an error value
+			// whatever the NAT is) and are only required to have been exercised
+			res.RequireObs("rejected:"+nPollResp+":nat-outside-names"+suffix, int64(nHand))
+		}
+	}
 	res.RequireObs("reject_law_cases", int64(nHand*200))
 	for _, name := range []string{nPollReq, nPollResp, nAnsReq, nAnsResp, nCliReq, nCliResp} {
 		res.RequireObs("totality_value:"+name, 1)
